@@ -755,7 +755,11 @@ def wildcard_witnesses(k: Kit, rule: str) -> None:
              ('10.0.0.?', '10.0.0.77', False),
              ('*.example.com', 'a.example.com.evil.net', False),
              ('host?', 'host', False), ('a.b', 'aXb', False),
-             ('h*t', 'host', True), ('*', 'anything', True)]
+             ('h*t', 'host', True), ('*', 'anything', True),
+             # principals and namespaces are case-sensitive
+             ('alice', 'Alice', False), ('FILE', 'file', False),
+             ('*@example.com', 'bob@EXAMPLE.com', False),
+             ('Admin', 'Admin', True)]
     compiled = {}
 
     def on_call(nm, args, env):
@@ -903,13 +907,13 @@ def build_pattern_witnesses(k: Kit, rule: str) -> None:
     wit = ['10.0.0.0/8', '10.1.2.3', 'fd00:db8::1', 'FD00:DB8::1', '::1',
            'fe80::/10', '::ffff:1.2.3.4', '2001:0db8:0:0:0:0:0:1',
            'host.example.com', '*.example.com', 'dead.beef.example', 'face',
-           '192.168.?.1']
+           '192.168.?.1', '10.1.2.3/8', '192.168.1.77/24']
     bad = None
     for pat in wit:
         def on_call(nm, args, env):
             if nm == 'CIDRHostPattern':
                 try:
-                    ipaddress.ip_network(args[0], strict=False)
+                    ipaddress.ip_network(args[0])
                 except ValueError:
                     return _Raise('ValueError')
                 return Obj('CIDR')
@@ -922,7 +926,7 @@ def build_pattern_witnesses(k: Kit, rule: str) -> None:
             rep.error(rule, key(fi, 'not-evaluable'), str(exc))
             return
         try:
-            ipaddress.ip_network(pat, strict=False)
+            ipaddress.ip_network(pat)
             want = Obj('CIDR')
         except ValueError:
             want = Obj('WILD')
@@ -1006,6 +1010,69 @@ def no_empty_host_name(k: Kit, rule: str) -> None:
                   'connection without a peer address (proxy_command, '
                   'tunnel) - the key is then trusted for any host reached '
                   'that way', k.loc(fi, n), g.describe_path(w) if w else None)
+
+
+def strict_networks(k: Kit, rule: str) -> None:
+    """An address / prefix pair with host bits set is not a network."""
+    rep = k.rep
+    idx = k.idx
+    n = 0
+    for fi in idx.iter_funcs(['misc', 'pattern']):
+        for c in ast.walk(fi.node):
+            if isinstance(c, ast.Call) and \
+                    dotted(c.func) == 'ipaddress.ip_network':
+                n += 1
+                lax = [kw for kw in c.keywords if kw.arg == 'strict' and not (
+                    isinstance(kw.value, ast.Constant) and
+                    kw.value.value is True)] or len(c.args) > 1
+                rep.check(not lax, rule, key(fi, 'networks parsed strictly'),
+                          'ipaddress.ip_network(text) with the default '
+                          'strict=True',
+                          f'`{norm(c)[:60]}` accepts an address with bits '
+                          'set beyond the prefix: `from="10.1.2.3/8"` then '
+                          'admits all of 10/8 and `!10.1.2.3/8` excludes '
+                          'it, where OpenSSH treats the entry as '
+                          'inconsistent and matches nothing', fi.loc(c))
+    rep.floor(rule, 'network parses', n, 1)
+
+
+def curve_lookup_converted(k: Kit, rule: str) -> None:
+    """An unknown curve id in a key blob is a damaged key, not a KeyError."""
+    from ..index import parent
+    rep = k.rep
+    fi = k.func('crypto.ec._ECKey.lookup_curve')
+    n = 0
+    for x in ast.walk(fi.node):
+        if isinstance(x, ast.Subscript) and dotted(x.value) == '_curves' \
+                and not isinstance(x.slice, ast.Constant):
+            n += 1
+            ok = False
+            y = x
+            while y is not None and y is not fi.node:
+                y = parent(y)
+                if isinstance(y, ast.Try):
+                    for h in y.handlers:
+                        names = [dotted(t) for t in (
+                            h.type.elts if isinstance(h.type, ast.Tuple)
+                            else [h.type])] if h.type is not None else []
+                        if any(nm in ('KeyError', 'LookupError')
+                               for nm in names) and any(
+                            isinstance(r, ast.Raise) and r.exc is not None
+                            and 'ValueError' in unparse(r.exc)
+                                for r in ast.walk(h)):
+                            ok = True
+            rep.check(ok, rule, key(fi, 'unknown curve is a ValueError'),
+                      'KeyError from the curve table becomes ValueError',
+                      'the curve table is indexed with the curve id of the '
+                      'blob without converting KeyError: a well-framed '
+                      'ecdsa-sha2-* line naming an unregistered curve makes '
+                      'import_known_hosts / import_authorized_keys fail as a '
+                      'whole (KeyError) instead of skipping that line',
+                      fi.loc(x))
+    uses_get = any(is_call(c, 'get', '_curves') for c in ast.walk(fi.node))
+    if not n and not uses_get:
+        rep.violation(rule, key(fi, 'curve table lookup'), 'not found',
+                      fi.loc(fi.node))
 
 
 def r5(k: Kit) -> None:
@@ -1171,6 +1238,8 @@ def run(idx, rep, tier):
     r4(k)
     r4_cert_kind(k)
     key_alg_consistent(k, 'C17.R4')
+    curve_lookup_converted(k, 'C17.R4')
+    strict_networks(k, 'C17.R1')
     r5(k)
     rep.rule('C17.R6', 'SSHKnownHosts.match evaluated with a stubbed _match: '
              'the lookup without port is used only when the [host]:port '
